@@ -408,6 +408,8 @@ class Parser:
                 self.stream.expect("comma")
             arg = self.parse_assign_target(name_only=True)
             arg.set_ctx("param")
+            if any(arg.name == other.name for other in args):
+                self.fail(f"duplicate argument {arg.name!r} in signature", arg.lineno)
             if self.stream.skip_if("assign"):
                 defaults.append(self.parse_expression())
             elif defaults:
